@@ -396,10 +396,14 @@ impl ASN1Type {
                                 .enumerate()
                                 .for_each(|(index, member)| {
                                     if index < linked_seq.extensible.unwrap_or(usize::MAX) {
+                                        // the included components belong to the extension root:
+                                        // they go in front of the first extension addition
                                         if let Some(index_of_first_ext) = s.extensible {
+                                            s.members.insert(index_of_first_ext, member.clone());
                                             s.extensible = Some(index_of_first_ext + 1)
+                                        } else {
+                                            s.members.push(member.clone());
                                         }
-                                        s.members.push(member.clone());
                                     }
                                 });
                             member_linking = true;
